@@ -13,6 +13,7 @@ from typing import (
     MutableMapping,
     Dict,
     cast,
+    FrozenSet,
     Set,
 )
 
@@ -655,9 +656,35 @@ def resolve_kwdefaults(sign: inspect.Signature) -> Dict[str, Any]:
 # contract checking is already in progress.
 #
 # The key refers to the id() of the function (preconditions and postconditions) or instance (invariants).
+#
+# The identifiers are kept in an immutable set which is replaced on every change. A mutable set must not be stored
+# in the context variable: the contexts copied for new asyncio tasks (or with ``contextvars.copy_context``) would all
+# refer to the very same set object and thus suspend each other's contract checks.
 _IN_PROGRESS = contextvars.ContextVar(
     "_IN_PROGRESS", default=None
-)  # type: contextvars.ContextVar[Optional[Set[int]]]
+)  # type: contextvars.ContextVar[Optional[FrozenSet[int]]]
+
+
+def _is_in_progress(identifier: int) -> bool:
+    """Check whether the contract checking is already in progress in the current context."""
+    in_progress = _IN_PROGRESS.get()
+    return in_progress is not None and identifier in in_progress
+
+
+def _mark_in_progress(identifier: int) -> None:
+    """Mark that the contracts related to the ``identifier`` are being checked in the current context."""
+    in_progress = _IN_PROGRESS.get()
+    if in_progress is None:
+        _IN_PROGRESS.set(frozenset((identifier,)))
+    else:
+        _IN_PROGRESS.set(in_progress | {identifier})
+
+
+def _unmark_in_progress(identifier: int) -> None:
+    """Remove the mark that the contracts related to the ``identifier`` are being checked in the current context."""
+    in_progress = _IN_PROGRESS.get()
+    if in_progress is not None and identifier in in_progress:
+        _IN_PROGRESS.set(in_progress - {identifier})
 
 
 def decorate_with_checker(func: CallableT) -> CallableT:
@@ -727,26 +754,17 @@ def decorate_with_checker(func: CallableT) -> CallableT:
             if kwargs_error:
                 raise kwargs_error
 
-            # We need to create a new in-progress set if it is None as the ``ContextVar`` does not accept
-            # a factory function for the default argument. If we didn't do this, and simply set an empty
-            # set as the default, ``ContextVar`` would always point to the same set by copying the default
-            # by reference.
-            in_progress = _IN_PROGRESS.get()
-            if in_progress is None:
-                in_progress = set()
-                _IN_PROGRESS.set(in_progress)
-
             # If the wrapper is already checking the contracts for the wrapped function, avoid a recursive loop
             # by skipping any subsequent contract checks for the same function.
             #
             # This needs to be tested before entering the try-finally block: the re-entrant call must not remove
             # the marker set by the outer call which is still checking the contracts.
-            if id_func in in_progress:
+            if _is_in_progress(id_func):
                 return await func(*args, **kwargs)
 
             # Use try-finally instead of ExitStack for performance.
             try:
-                in_progress.add(id_func)
+                _mark_in_progress(id_func)
 
                 (preconditions, snapshots, postconditions) = _unpack_pre_snap_posts(
                     wrapper
@@ -783,9 +801,9 @@ def decorate_with_checker(func: CallableT) -> CallableT:
                 # https://stackoverflow.com/questions/44813333/how-can-i-elide-a-function-wrapper-from-the-traceback-in-python-3
                 # The contracts are not being checked while the function itself is running, so the calls which
                 # the function makes to itself (recursion) need to be checked as any other call.
-                in_progress.discard(id_func)
+                _unmark_in_progress(id_func)
                 result = await func(*args, **kwargs)
-                in_progress.add(id_func)
+                _mark_in_progress(id_func)
 
                 if postconditions:
                     resolved_kwargs["result"] = result
@@ -798,7 +816,7 @@ def decorate_with_checker(func: CallableT) -> CallableT:
 
                 return result
             finally:
-                in_progress.discard(id_func)
+                _unmark_in_progress(id_func)
 
     else:
 
@@ -808,26 +826,17 @@ def decorate_with_checker(func: CallableT) -> CallableT:
             if kwargs_error:
                 raise kwargs_error
 
-            # We need to create a new in-progress set if it is None as the ``ContextVar`` does not accept
-            # a factory function for the default argument. If we didn't do this, and simply set an empty
-            # set as the default, ``ContextVar`` would always point to the same set by copying the default
-            # by reference.
-            in_progress = _IN_PROGRESS.get()
-            if in_progress is None:
-                in_progress = set()
-                _IN_PROGRESS.set(in_progress)
-
             # If the wrapper is already checking the contracts for the wrapped function, avoid a recursive loop
             # by skipping any subsequent contract checks for the same function.
             #
             # This needs to be tested before entering the try-finally block: the re-entrant call must not remove
             # the marker set by the outer call which is still checking the contracts.
-            if id_func in in_progress:
+            if _is_in_progress(id_func):
                 return func(*args, **kwargs)
 
             # Use try-finally instead of ExitStack for performance.
             try:
-                in_progress.add(id_func)
+                _mark_in_progress(id_func)
 
                 (preconditions, snapshots, postconditions) = _unpack_pre_snap_posts(
                     wrapper
@@ -866,9 +875,9 @@ def decorate_with_checker(func: CallableT) -> CallableT:
                 # https://stackoverflow.com/questions/44813333/how-can-i-elide-a-function-wrapper-from-the-traceback-in-python-3
                 # The contracts are not being checked while the function itself is running, so the calls which
                 # the function makes to itself (recursion) need to be checked as any other call.
-                in_progress.discard(id_func)
+                _unmark_in_progress(id_func)
                 result = func(*args, **kwargs)
-                in_progress.add(id_func)
+                _mark_in_progress(id_func)
 
                 if postconditions:
                     resolved_kwargs["result"] = result
@@ -883,7 +892,7 @@ def decorate_with_checker(func: CallableT) -> CallableT:
 
                 return result
             finally:
-                in_progress.discard(id_func)
+                _unmark_in_progress(id_func)
 
     # Copy __doc__ and other properties so that doctests can run
     functools.update_wrapper(wrapper=wrapper, wrapped=func)
@@ -1060,23 +1069,14 @@ def _decorate_with_invariants(func: CallableT, is_init: bool) -> CallableT:
 
             # We need to disable the invariants check during the constructor.
 
-            # We need to create a new in-progress set if it is None as the ``ContextVar`` does not accept
-            # a factory function for the default argument. If we didn't do this, and simply set an empty
-            # set as the default, ``ContextVar`` would always point to the same set by copying the default
-            # by reference.
-            in_progress = _IN_PROGRESS.get()
-            if in_progress is None:
-                in_progress = set()
-                _IN_PROGRESS.set(in_progress)
-
             id_instance = id(instance)
-            if id_instance in in_progress:
+            if _is_in_progress(id_instance):
                 # The constructor has been called while another constructor (e.g., of a sub-class through
                 # ``super().__init__()``) or a method of the same instance is still running. The instance is
                 # not fully constructed yet, so the invariants are checked by the outermost call.
                 return func(*args, **kwargs)
 
-            in_progress.add(id_instance)
+            _mark_in_progress(id_instance)
 
             # ExitStack is not used here due to performance.
             try:
@@ -1087,7 +1087,7 @@ def _decorate_with_invariants(func: CallableT, is_init: bool) -> CallableT:
 
                 return result
             finally:
-                in_progress.discard(id_instance)
+                _unmark_in_progress(id_instance)
 
     else:
         # (mristin, 2021-02-16)
@@ -1123,20 +1123,11 @@ def _decorate_with_invariants(func: CallableT, is_init: bool) -> CallableT:
                     else instance.__class__.__invariants_on_call__
                 )
 
-                # We need to create a new in-progress set if it is None as the ``ContextVar`` does not accept
-                # a factory function for the default argument. If we didn't do this, and simply set an empty
-                # set as the default, ``ContextVar`` would always point to the same set by copying the default
-                # by reference.
-                in_progress = _IN_PROGRESS.get()
-                if in_progress is None:
-                    in_progress = set()
-                    _IN_PROGRESS.set(in_progress)
-
                 # The following dunder indicates whether another invariant is currently being checked. If so,
                 # we need to suspend any further invariant check to avoid endless recursion.
                 id_instance = id(instance)
-                if id_instance not in in_progress:
-                    in_progress.add(id_instance)
+                if not _is_in_progress(id_instance):
+                    _mark_in_progress(id_instance)
                 else:
                     # Do not check any invariants to avoid endless recursion.
                     return await func(*args, **kwargs)
@@ -1153,7 +1144,7 @@ def _decorate_with_invariants(func: CallableT, is_init: bool) -> CallableT:
 
                     return result
                 finally:
-                    in_progress.discard(id_instance)
+                    _unmark_in_progress(id_instance)
 
         else:
 
@@ -1180,18 +1171,9 @@ def _decorate_with_invariants(func: CallableT, is_init: bool) -> CallableT:
                 # The following dunder indicates whether another invariant is currently being checked. If so,
                 # we need to suspend any further invariant check to avoid endless recursion.
 
-                # We need to create a new in-progress set if it is None as the ``ContextVar`` does not accept
-                # a factory function for the default argument. If we didn't do this, and simply set an empty
-                # set as the default, ``ContextVar`` would always point to the same set by copying the default
-                # by reference.
-                in_progress = _IN_PROGRESS.get()
-                if in_progress is None:
-                    in_progress = set()
-                    _IN_PROGRESS.set(in_progress)
-
                 id_instance = id(instance)
-                if id_instance not in in_progress:
-                    in_progress.add(id_instance)
+                if not _is_in_progress(id_instance):
+                    _mark_in_progress(id_instance)
                 else:
                     # Do not check any invariants to avoid endless recursion.
                     return func(*args, **kwargs)
@@ -1208,7 +1190,7 @@ def _decorate_with_invariants(func: CallableT, is_init: bool) -> CallableT:
 
                     return result
                 finally:
-                    in_progress.discard(id_instance)
+                    _unmark_in_progress(id_instance)
 
     functools.update_wrapper(wrapper=wrapper, wrapped=func)
 
